@@ -17,6 +17,7 @@ def run(rep, tier):
                    "singletons and references never register; nothing is registered without FLAG_REF")
     rep.rule("R5", "TYPE_UNICODE payloads of 3.1+ producers are decoded as utf-8 with surrogatepass")
     rep.rule("R7", "the NULL terminator is distinguishable from every decodable value and the dict reader terminates only on it")
+    rep.rule("R9", "TYPE_LONG: |n| 16-bit digits are read, digit j contributes digit << 15*j, the result is negated exactly when n < 0")
     rep.rule("R8", "TYPE_INTERNED appends exactly once to the interned-string table; TYPE_STRINGREF only indexes it")
     T = tables()
     reader_obligations(rep, T)
